@@ -63,7 +63,7 @@ SEM_W = {
 
 def cfg_C07(rs):
     return swarm(rs, {"checks": {"pure": True}, "props": ["C07"], "fault_rates": [0.0, 0.25, 0.45], "compile_rate": 0.15,
-                      "compile_fault_rate": 0.6})
+                      "compile_fault_rate": 0.6, "query_rate": 0.12})
 
 
 def cfg_C06(rs):
